@@ -757,7 +757,7 @@ func (x *Exec) enterLoop(fr *Frame, l *loopRec, st *State) *State {
 			x.assumeIn(ns, t)
 		}
 	}
-	if x.speculating == 0 {
+	if x.speculating == 0 && fr.root { // loops of inlined callees may sit on a path the caller's precondition excludes
 		x.obligeIn(ns, "vacuity", name+" invariants satisfiable", "", "")
 		x.obls[len(x.obls)-1].Kind = "vacuity"
 		x.obls[len(x.obls)-1].Goal = ""
